@@ -9,12 +9,15 @@ DIMS = {
     "directive": ["ignore", "no-kvp", "near_extra", "near_spelling", "near_prefix", "none"],
     "cstyle": ["line", "block"],
     "case": ["lower", "upper", "mixed"],
-    "pad": ["one", "none", "many", "tabs"],
+    "pad": ["one", "none", "many", "tabs", "unicode"],
     "indent": ["none", "spaces", "tab"],
-    "blanks": [0, 1, 2, 3, 5],
-    "between": ["nothing", "code_line", "code_then_comment", "comment_line", "other_directive", "directive_after", "directive_trailing"],
+    "blanks": [0, 1, 2, 3, 5, 40],
+    "between": ["nothing", "code_line", "attribute_line", "code_then_comment", "comment_line", "other_directive", "directive_after", "directive_trailing"],
     "nstmts": [1, 2, 3],
     "multiline": [False, True],
+    # how the (last) subject statement is spelled: name, `!` and `(` on one line, or the name alone on the line the statement
+    # starts on with `!(` on the next one / layout between them
+    "spelling": ["tight", "tight", "name_then_newline", "spaced", "comment_between"],
     "mb": ["none", "before_on_line", "unicode_neighbour"],
     "structured": [False, True],
 }
@@ -41,7 +44,8 @@ def comment(text, row, rnd):
         t = t.upper()
     elif row["case"] == "mixed":
         t = "".join(c.upper() if i % 2 else c.lower() for i, c in enumerate(t))
-    pad = {"one": " ", "none": "", "many": "     ", "tabs": "\t \t"}[row["pad"]]
+    pad = {"one": " ", "none": "", "many": "     ", "tabs": "\t \t",
+           "unicode": rnd.choice(["\u00a0", "\u3000", "\x0b", "\x0c", "\u2003\u00a0", "\u2028", "\u0085"])}[row["pad"]]
     if row["cstyle"] == "line":
         return "//" + pad + t + pad
     return "/*" + pad + t + pad + "*/"
@@ -54,7 +58,7 @@ def effect_of(row):
         return "no-kvp" if row["directive"] == "ignore" else "ignore"
     if row["directive"] not in ("ignore", "no-kvp"):
         return "none"
-    if row["between"] in ("code_line", "code_then_comment", "comment_line", "directive_after", "directive_trailing"):
+    if row["between"] in ("code_line", "attribute_line", "code_then_comment", "comment_line", "directive_after", "directive_trailing"):
         return "none"
     return row["directive"]
 
@@ -66,10 +70,11 @@ def build(fileseed, rows, eol):
     n = 0
     ind_of = {"none": "", "spaces": "      ", "tab": "\t"}
 
-    def stmt(multiline, role, row, eff, pre=""):
+    def stmt(multiline, role, row, eff, pre="", spelling="tight"):
         nonlocal n
         n += 1
         f = dict(gen.NEUTRAL)
+        f["bang"] = {"name_then_newline": "nl", "spaced": "both", "comment_between": "cm"}.get(spelling, "tight")
         f["lay"] = "nl" if multiline else "tight"
         f["nkv"] = rnd.choice([0, 1, 2])
         f["target"] = rnd.choice(["none", "plain"])
@@ -99,7 +104,11 @@ def build(fileseed, rows, eol):
         if b not in ("directive_after", "directive_trailing"):
             gf.raw(ind + dtext + eol)
             if b == "code_line":
-                gf.raw(ind + "let between = 1;" + eol)
+                gf.raw(ind + rnd.choice(["let between = 1;", "let between = 1;", "}", "};", "loop {", ".await;", ")",
+                                         "r#\"raw\"#;", "x /* remark */ ;", "\"breadlog:ignore\";"]) + eol)
+            elif b == "attribute_line":
+                gf.raw(ind + rnd.choice(["#[allow(unused)]", "#[cfg(debug_assertions)]", "#![allow(dead_code)]", "#[inline]",
+                                         "#[doc = \"breadlog:ignore\"]"]) + eol)
             elif b == "code_then_comment":
                 gf.raw(ind + "let between = 1; // an ordinary remark" + eol)
             elif b == "comment_line":
@@ -107,7 +116,7 @@ def build(fileseed, rows, eol):
             elif b == "other_directive":
                 gf.raw(ind + other + eol)
         for _ in range(row["blanks"]):
-            gf.raw(rnd.choice(["", "   ", "\t", "\x0c", "\u00a0 ", " \t \u2003"]) + eol)
+            gf.raw(rnd.choice(["", "   ", "\t", "\x0c", "\u00a0 ", " \t \u2003", " " * rnd.choice([3, 40, 300])]) + eol)
         # subject line
         gf.raw(ind)
         if row["mb"] == "before_on_line":
@@ -115,7 +124,9 @@ def build(fileseed, rows, eol):
         elif row["mb"] == "unicode_neighbour":
             gf.raw('é!("neighbour"); ')
         for k in range(row["nstmts"]):
-            stmt(row["multiline"] and k == row["nstmts"] - 1, "subject", row, eff, pre=" " if k else "")
+            last = (k == row["nstmts"] - 1)
+            stmt(row["multiline"] and last, "subject", row, eff, pre=" " if k else "",
+                 spelling=row.get("spelling", "tight") if last else "tight")
         if b == "directive_trailing":
             gf.raw(" " + comment(directive_text(row["directive"], rnd), dict(row, cstyle="line"), rnd))
         gf.newline()
@@ -180,7 +191,7 @@ def work(job):
         res["nontrivial"].append(key)
         res["counters"]["effect_" + eff] = res["counters"].get("effect_" + eff, 0) + 1
         if clause:
-            nn = {k: v for k, v in row.items() if k in ("directive", "cstyle", "between", "blanks", "nstmts", "multiline", "mb")}
+            nn = {k: v for k, v in row.items() if k in ("directive", "cstyle", "between", "blanks", "nstmts", "multiline", "mb", "spelling")}
             sig = "C14.%s|%s|expected=%s|%s|%s" % (clause, role, eff, "structured" if structured else "unstructured",
                                                   ",".join("%s=%s" % kv for kv in sorted(nn.items())))
             res["violations"].append({"signature": sig,
